@@ -821,6 +821,10 @@ func c43GenJudge(e genEntry, rec []uint64) (o c43GenOutcome) {
 	var sh valueShape
 	shapeOf(v, 0, &sh)
 
+	if k := refusedKind(T, false, true, map[reflect.Type]bool{}); k != "" && okB {
+		return c43GenOutcome{Accepted: true, Sig: "documented-refusal-accepted:" + k,
+			Msg: fmt.Sprintf("Build/ValidateState accept %s although it contains a %s (validate.go: \"Pointers, interfaces, channels, and functions are not allowed\")", e.Name, k)}
+	}
 	if e.MustReject && okB {
 		return c43GenOutcome{Accepted: true, Sig: "unexported-only-accepted",
 			Msg: fmt.Sprintf("%s keeps its state only in unexported fields and has no usable custom JSON, yet Build/ValidateState accept it", e.Name)}
